@@ -16,6 +16,15 @@ CLAIMS = {
                 "the VFS stub for os.stat. mtimes are ints (gwf only orders them).",
         "design": "DESIGN.md section 4, C01",
     },
+    "C02": {
+        "text": "Bounded symbolic model checking of schedule/submit_workflow/get_status_map (real should_run, real name filters, real Graph) against the independent plan "
+                "specification: for every DAG shape in the bound, the stale bit and the backend state (6 values) of every target are symbolic; the recorded submit() calls "
+                "must be exactly the stale cone, once each, dependencies first, with exactly the incomplete direct dependencies as prerequisites; TrackingBackend.submit maps "
+                "dependency targets to their currently tracked ids.",
+        "note": "Bound: all DAG shapes on 3 targets (x2 name labellings), diamond on 4 (quick); all 64 shapes on 4 (thorough); selection catalogue of 6 pattern sets. "
+                "Staleness is realised as 'the single output file is missing'. Backend = recording stub (the real backends are C07/C08).",
+        "design": "DESIGN.md section 4, C02",
+    },
 }
 
 PENDING = {}
